@@ -169,7 +169,8 @@ def run(ck, tier):
             if e:
                 ck.samples.append({"source": "vquality " + want, "event": e})
         _report(ck, v, evs)
-        _selftest(ck, evs, work)
+        if not ck.violations:   # the self-test needs events the specification accepts
+            _selftest(ck, evs, work)
     finally:
         shutil.rmtree(work, ignore_errors=True)
 
